@@ -54,9 +54,10 @@ def main():
   ap.add_argument("--vm", default="/tmp/vmc")
   ap.add_argument("--src")
   ap.add_argument("--checks", default="all")
+  ap.add_argument("--sid", default=None, help="id under /verif/seeded (default <PROP>-<mN>)")
   args = ap.parse_args()
   src = args.src or f"/tmp/mut/{args.prop}/MUTANTS/{args.m}"
-  sid = f"{args.prop}-{args.m}"
+  sid = args.sid or f"{args.prop}-{args.m}"
   dst = os.path.join(VERIF, "seeded", sid)
   os.makedirs(dst, exist_ok=True)
   for f in os.listdir(src):
